@@ -7,3 +7,4 @@ import PeptVerif.Props.C18Concrete
 #print axioms Pept.C18Concrete.condense_mass_label_concrete
 #print axioms Pept.C18Concrete.modMass_close
 #print axioms Pept.C18Concrete.condense_mass_label_resolved
+#print axioms Pept.C18Concrete.condense_mass_label_plain
